@@ -49,6 +49,7 @@ class Ctx:
         self.drv = None
         self.replay_files = []
         self.drv_par = None
+        self.replay_info = {}
 
     thorough = property(lambda s: s.tier == "thorough")
 
@@ -183,6 +184,7 @@ class Ctx:
                 shutil.copy(f, d)
         with open(os.path.join(d, "replay.json"), "w") as f:
             json.dump({"property": self.pid, "tier": self.tier, "seed": self.seed,
+                       "tlc": {k: v for k, v in self.replay_info.items() if k in os.listdir(d)},
                        "violations": [dict(v, where=os.path.basename(v.get("where", ""))) for v in viols[:200]]}, f, indent=1)
         return os.path.join(d, "replay.json")
 
